@@ -49,7 +49,7 @@ _dyn_cache: dict = {}
 
 
 def make_type(spec: str):
-    """'marker:X' | 'timeout' | 'timeoutsub:<Name>' | 'builtin:X' | 'dyn:<Name>' | 'markersub:X:<Name>'"""
+    """'marker:X' | 'timeout' | 'timeoutsub:<Name>' | 'builtin:X' | 'dyn:<Name>' | 'markersub:X:<Name>' | 'nested:<Outer>:<Name>'"""
     kind, _, rest = spec.partition(":")
     if kind == "marker":
         return MARKERS[rest][0]
@@ -67,6 +67,10 @@ def make_type(spec: str):
         t = type(name, (MARKERS[m][0],), {})
     elif kind == "dyn":
         t = type(rest, (Exception,), {})
+    elif kind == "nested":
+        # a class defined inside another class / a function: its __qualname__ carries the outer names
+        outer, _, name = rest.partition(":")
+        t = type(name, (Exception,), {"__qualname__": f"{outer}.<locals>.{name}" if outer.islower() else f"{outer}.{name}"})
     else:
         raise ValueError(spec)
     _dyn_cache[key] = t
@@ -381,9 +385,11 @@ NAME_PARTS = ["Auth", "auth", "UNAUTHORIZED", "Credential", "Forbidden", "forbid
 
 def type_st():
     dyn = st.lists(st.sampled_from(NAME_PARTS), min_size=1, max_size=3).map(lambda p: "dyn:" + "".join(p))
+    nested = st.tuples(st.sampled_from(["AuthClient", "PermissionService", "open_connection_pool", "TimeoutManager", "Plain", "make_client"]), st.sampled_from(["QuotaExceeded", "Busy", "PoolExhausted", "AuthFailed", "Oops"])).map(lambda t: f"nested:{t[0]}:{t[1]}")
     return st.one_of(
         dyn,
         dyn,
+        nested,
         st.sampled_from(["marker:" + m for m in MARKERS]),
         st.sampled_from(["timeout", "timeoutsub:SlowThing", "timeoutsub:AuthTimeout"]),
         st.sampled_from(["builtin:" + b for b in BUILTINS]),
